@@ -115,14 +115,14 @@ def outcome(defn, compile: bool = True, entry: bool = False) -> Outcome:
 
 
 def run_src(src: str, fn: str = "main", compile: bool = True, entry: bool = False,
-            with_prelude: bool = True):
+            with_prelude: bool = True, name: str | None = None):
     """Load source (optionally prefixed with PRELUDE) and run the pipeline on `fn`.
     Returns (Outcome, module).  Errors raised while *defining* (decorator time) are
     classified the same way."""
     from guppylang_internals.error import GuppyError
     full = (PRELUDE + src) if with_prelude else src
     try:
-        mod = load(full)
+        mod = load(full, name)
     except GuppyError as e:
         try:
             return Outcome("error", title=e.error.title, rendered=render_error(e),
